@@ -263,6 +263,34 @@ def work_assigned(chunk):
     return acc
 
 
+def work_alive(chunk):
+    """several rule objects alive at the same time: the rule of each is the rule of ITS configuration, also after other
+    objects have been constructed (exact moment identities through check_config are for one object at a time)"""
+    from numdifftools.finite_difference import LogRule
+    acc = fw.Acc()
+    cfgs = [('forward', 1, 4), ('central', 1, 1), ('backward', 2, 3), ('central', 2, 6), ('complex', 1, 2), ('forward', 3, 1)]
+    for ratio in chunk:
+        fw.fresh_library_state()
+        alone = {}
+        for m, n, o in cfgs:
+            fw.fresh_library_state()
+            r = LogRule(n=n, method=m, order=o)
+            alone[(m, n, o)] = (np.asarray(r.rule(ratio)).tobytes(), r.method_order, r.richardson_step)
+        fw.fresh_library_state()
+        objs = [(c, LogRule(n=c[1], method=c[0], order=c[2])) for c in cfgs]
+        for c, r in objs + objs[::-1]:
+            got = (np.asarray(r.rule(ratio)).tobytes(), r.method_order, r.richardson_step)
+            same = got == alone[c]
+            acc.case(('alive', ratio, c), nontrivial=True, cell='alive', outcome=same)
+            if not same:
+                acc.violation('C06:%s:rule-of-another-configuration' % c[0], dict(kind='alive', ratio=ratio, cfg=list(c)),
+                              'LogRule%r used after other rule objects were constructed: %d weights, method_order %r, richardson_step %r; '
+                              'alone: %d weights, method_order %r, richardson_step %r'
+                              % (c, len(got[0]) // 8, got[1], got[2], len(alone[c][0]) // 8, alone[c][1], alone[c][2]), 1)
+    fw.fresh_library_state()
+    return acc
+
+
 def run(ctx):
     if ctx.quick:
         ratios, nmax = RATIOS_Q, 8
@@ -272,6 +300,7 @@ def run(ctx):
              for o in range(1, nmax + 1) for r in ratios]
     acc = ctx.pmap(work, cases, chunk=20)
     acc.merge(ctx.pmap(work_assigned, assigned_cases(), chunk=3))
+    acc.merge(ctx.pmap(work_alive, [2.0, 1.6], chunk=1))
     for c in cases[:2] + cases[len(cases) // 2: len(cases) // 2 + 2] + cases[-2:]:
         acc.sample(dict(method=c[0], n=c[1], order=c[2], step_ratio=c[3]))
     req = ['%s/n%%8=%d' % (m, k) for m in METHODS for k in range(8)] + ['assigned/%s' % m for m in METHODS]
@@ -287,6 +316,10 @@ def run(ctx):
 
 
 def replay(case):
+    if case.get('kind') == 'alive':
+        a = work_alive([case['ratio']])
+        bad = [r['detail'] for k, (n, recs) in a.viol.items() for r in recs]
+        return not bad, '%r -> %s' % (case, bad or 'ok')
     if case.get('kind') == 'assigned':
         a = work_assigned([(tuple(case['built']), tuple(case['assigned']))])
         bad = [r['detail'] for k, (n, recs) in a.viol.items() for r in recs]
